@@ -13,8 +13,8 @@ C13_OPS = ['prefix_increment', 'prefix_decrement', 'postfix_increment', 'postfix
            'less_equal', 'greater_than', 'greater_equal', 'equality', 'inequality']
 
 # divisor in {0, 1, -1 / all-ones}, any dividend: the cases the statement singles out
-C13_SLOW_FIRST = ['modulus_special_divisors', 'divide_special_divisors', 'bitwise_and', 'subtract', 'bitwise_xor', 'bitwise_or', 'add',
-                  'left_shift', 'right_shift', 'minus', 'bitwise_not']
+C13_SLOW_FIRST = ['add', 'modulus_special_divisors', 'bitwise_xor', 'bitwise_or', 'right_shift', 'divide_special_divisors', 'bitwise_not',
+                  'left_shift', 'subtract', 'greater_than', 'bitwise_and', 'minus']
 
 C11_SHAPES = ['c11_shape_or', 'c11_shape_and', 'c11_shape_eq', 'c11_shape_ne', 'c11_shape_lt', 'c11_shape_lt_adjacent', 'c11_shape_le',
               'c11_shape_gt', 'c11_shape_ge', 'c11_prec_or_and', 'c11_prec_and_or', 'c11_prec_and_eq', 'c11_prec_eq_lt', 'c11_prec_lt_eq',
@@ -111,11 +111,12 @@ PROPS = {
         'k_groups': [
             {'module': 'typer/evaluator.rs',
              # longest-running first (the scheduler takes them in this order): 5-6 min each down to 20 s
-             'harnesses': [('c13_op_' + o, 'complete') for o in C13_SLOW_FIRST]
+             'harnesses': [('c13_op_modulus_modular', 'complete'), ('c13_op_divide_modular', 'complete')]
+                          + [('c13_op_' + o, 'complete') for o in C13_SLOW_FIRST]
                           + [('c13_op_' + o, 'complete') for o in C13_OPS if o not in C13_SLOW_FIRST and o not in ('multiply', 'divide', 'modulus')]
                           + [('c13_op_nonconstant_argument_propagates', 'complete')]
                           # * / %: modular in the std primitive the code delegates to (see the harness module)
-                          + [('c13_op_multiply_modular', 'complete'), ('c13_op_divide_modular', 'complete'), ('c13_op_modulus_modular', 'complete')]
+                          + [('c13_op_multiply_modular', 'complete')]
                           + [('c13_cast_to_' + t, 'complete') for t in ('bool', 'int', 'uint', 'half', 'float', 'double', 'enum_int', 'enum_uint')],
              # kissat decides these 2-3x faster than the default CaDiCaL; the per-assertion reachability covers cost one SAT call
              # each and are replaced by the explicit kani::cover!(true) at the end of every harness
